@@ -216,6 +216,29 @@ inductive Expands (S : Subst) (cals : Cals) : List Instruction → List Instruct
       Expands S cals (c.instructions.map (S.meas c m)) out → Expands S cals is os →
       Expands S cals (.measurement m :: is) (out ++ os)
 
+/-! ### Matching stated on the real identifiers (proved equivalent to the projection in Props.lean) -/
+
+/-- a calibration qubit accepts a gate qubit (AST level) -/
+def QubitOkAst (cq gq : Qubit) : Prop :=
+  (∃ n, cq = .fixed n ∧ gq = .fixed n) ∨ (∃ v, cq = .variable v ∧ ∀ p, gq ≠ .placeholder p)
+
+/-- "A gate matches only calibrations with its name, modifiers, parameter and qubit counts whose fixed qubits
+and non-variable parameters equal its own" on the real identifiers: parameters are compared after
+simplification, a calibration parameter that simplifies to a variable accepts anything. -/
+def GateMatchesAst (c : CalDef) (g : Gate) : Prop :=
+  c.identifier.name = g.name ∧ c.identifier.modifiers = g.modifiers ∧
+  c.identifier.parameters.length = g.parameters.length ∧
+  c.identifier.qubits.length = g.qubits.length ∧
+  (∀ (i : Nat) cq gq, c.identifier.qubits[i]? = some cq → g.qubits[i]? = some gq → QubitOkAst cq gq) ∧
+  (∀ (i : Nat) cp gp, c.identifier.parameters[i]? = some cp → g.parameters[i]? = some gp →
+    (∃ v, E.simp cp = .var v) ∨ E.simp cp = E.simp gp)
+
+/-- "A measurement matches only calibrations with its name and record/effect kind" whose qubit is the measured
+fixed qubit or a variable, on the real identifiers -/
+def MeasMatchesAst (c : MCalDef) (m : Measurement) : Prop :=
+  c.identifier.name = m.name ∧ c.identifier.target.isSome = m.target.isSome ∧
+  ((∃ n, c.identifier.qubit = .fixed n ∧ m.qubit = .fixed n) ∨ (∃ v, c.identifier.qubit = .variable v))
+
 /-! ### Bool checkers (evaluated by the driver on the IMPLEMENTATION's output) -/
 
 /-- brute force over all definitions with C16's `gateMatchesB` / `measMatchesB` (not the lookup scans) -/
